@@ -33,7 +33,7 @@ FAMILY_VARIANTS = {
 # exit-point rows with action+guard): the families it compiles -- "back11 where it accepts the same declarations"
 B11_FAMS = ["ids_mixed_none", "ids_mixed_always", "ids_mixed_shallow", "conflict_flat", "nest_inactive", "queue_flat", "queue_nested", "defer_basic", "defer_action", "completion_chain",
             "blocking", "flags", "storage", "fork_entry", "history_none", "history_always", "history_shallow", "serial_nested",
-            "fe_player", "fe_conflict", "exit_points_plain", "defer_queue_first", "root_history", "defer_sub"]
+            "fe_player", "fe_conflict", "exit_points_plain", "defer_queue_first", "root_history", "defer_sub", "fork_flags"]
 
 
 # back with queue_container_circular (capacity 256 set by the adapter, "sufficient" for every plan)
@@ -274,7 +274,7 @@ PROPS = {
                 + jobs(["flags"], ["observe"], 500, 20000, variants=["B+p3", "M+p3"])
                 + rand_jobs("struct", ["observe"], 600, 6000) + rand_jobs("hist", ["observe"], 0, 6000)
                 # flags inside a sub-machine whose first entry is an explicit entry, a fork or an entry point (second seeded defect C17)
-                + jobs(["fork_entry"], ["observe", "lifecycle"], 800, 30000, variants=ALLV) + rand_jobs("pseudo", ["observe"], 0, 6000),
+                + jobs(["fork_flags"], ["observe", "lifecycle"], 800, 30000, variants=ALLV) + rand_jobs("pseudo", ["observe"], 0, 6000),
         "nontrivial": ["flag"],
         "rule": "is_flag_active<F>() and <F,AND> for every flag on every machine level after every op (and, through the observed active "
                 "ids, inside behaviours); non-trivial = some flag was active at some point of the run",
